@@ -405,6 +405,14 @@ def rsa_from_pool(ent, created):
     return build_pub_body(created, RSA_ES, [n, e]), RSA_ES, {'d': d, 'p': p, 'q': q, 'u': u}
 
 
+def elg_from_pool(ent, created, seed_octets):
+    """an ElGamal (encrypt-only) key over the group of a pooled DSA parameter set"""
+    p, q, g = (int(ent[k], 16) for k in ('p', 'q', 'g'))
+    x = int.from_bytes(seed_octets, 'big') % (q - 1) + 1
+    y = pow(g, x, p)
+    return build_pub_body(created, ELG, [p, g, y]), ELG, {'x': x}
+
+
 def dsa_from_pool(ent, created, seed_octets):
     p, q, g = (int(ent[k], 16) for k in ('p', 'q', 'g'))
     x = int.from_bytes(seed_octets, 'big') % (q - 1) + 1
